@@ -260,15 +260,23 @@ struct Lossy {
     if (fec_events >= 30 && plc_err > 0) {
       double ratio = fec_err / plc_err;
       run.count("fec_gain_checked"); long milli = (long)(ratio * 1000); if (run.stat["max:fec_vs_plc_error_milli"] < milli) run.stat["max:fec_vs_plc_error_milli"] = milli;
-      if (getenv("OPSIM_CALIB")) fprintf(stderr, "C09FEC ratio=%.4f events=%ld seed=%llu fms=%d lvl=%.4f worse=%.3f\n", ratio, fec_events, (unsigned long long)cur_seed, log.empty() ? 0 : log.back().frame48 / 48, plc_lvl_err > 0 ? fec_lvl_err / plc_lvl_err : -1.0, (double)fec_worse / fec_events);
+      if (getenv("OPSIM_CALIB")) fprintf(stderr, "C09FEC ratio=%.4f events=%ld seed=%llu fms=%d ch=%d lvl=%.4f worse=%.3f\n", ratio, fec_events, (unsigned long long)cur_seed, log.empty() ? 0 : log.back().frame48 / 48, S.enc.L.ch, plc_lvl_err > 0 ? fec_lvl_err / plc_lvl_err : -1.0, (double)fec_worse / fec_events);
       int fms = log.empty() ? 20 : log.back().frame48 / 48;
-      double alpha = fms <= 20 ? ALPHA : fms <= 40 ? ALPHA40 : ALPHA60;
-      if (ratio > alpha) REPORT(run, prop, "fec_not_better_than_plc", "error energy FEC/PLC = %.3f (bound %.2f) over %ld isolated losses with LBRR, %d ms packets", ratio, alpha, fec_events, fms);
+      // thresholds per (channels, packet duration) cell, >= 2x the worst of 54 000 calibration sessions (calib/thresholds.json C09.fec_gain):
+      // the summed-error ratio has a fat tail (a handful of events dominate the sums), the per-event "FEC frame farther from the
+      // loss-free frame than the concealed one" fraction is the robust companion
+      int cell = (S.enc.L.ch == 2 ? 3 : 0) + (fms <= 20 ? 0 : fms <= 40 ? 1 : 2);
+      static const double ALPHA_CELL[6] = {0.45, 2.05, 0.90, 0.66, 1.50, 2.10}, BETA_CELL[6] = {0.32, 0.45, 0.25, 0.15, 0.39, 0.55};
+      double alpha = ALPHA_CELL[cell], beta = BETA_CELL[cell];
+      double worse = (double)fec_worse / fec_events;
+      long wm = (long)(worse * 1000); if (run.stat["max:fec_worse_than_plc_fraction_milli"] < wm) run.stat["max:fec_worse_than_plc_fraction_milli"] = wm;
+      if (worse > beta) REPORT(run, prop, "fec_frame_often_worse_than_concealment", "the FEC frame is farther from the loss-free frame than the concealed one in %.0f %% of %ld isolated losses with LBRR (bound %.0f %%), %d ms packets, %d channel(s)", 100 * worse, fec_events, 100 * beta, fms, S.enc.L.ch);
+      if (ratio > alpha) REPORT(run, prop, "fec_not_better_than_plc", "error energy FEC/PLC = %.3f (bound %.2f) over %ld isolated losses with LBRR, %d ms packets, %d channel(s)", ratio, alpha, fec_events, fms, S.enc.L.ch);
     }
   }
   // calibrated bounds (calib/thresholds.json C09.*)
   static constexpr double KAPPA_NB = 11.0; double KAPPA = 36.0;   // (a regression plan may carry its own, plan-specific bound in the header) 
-  static constexpr double RHO = 0.1, ALPHA = 0.45, ALPHA40 = 1.65, ALPHA60 = 0.8, THETA_DB = -20.0;
+  static constexpr double RHO = 0.1, THETA_DB = -20.0;
   void finish_recovery(double err, double ref, long samples, bool celt) {
     if (ref <= 0) return;
     double db = 10 * log10(std::max(err / ref, 1e-12));
@@ -352,12 +360,16 @@ Plan gen(uint64_t seed, int tier) {
     // (precondition found by calibration: the redundant copy is only clearly better than concealment when it gets enough bits - narrow or
     //  medium band, mono, >= 32 kb/s, expected loss >= 20 %; at wideband / 20 kb/s / 10 % loss a healthy codec's FEC frame is often no
     //  closer to the original than its concealment, so no claim is checked there)
-    p.ops.push_back(mkop("ENCNEW", {K_SINGLE, r.range(0, 1), 1, r.range(0, 1), 0, 0, r.chance(0.7) ? -1 : r.range(0, 4), (int64_t)r.range(1, 1 << 30)}));
-    p.ops.push_back(mkop("RXNEW", {r.range(0, 4), r.range(0, 1), r.chance(0.7) ? -1 : r.range(0, 4)}));
+    // a third of the probes are stereo (twice the rate, stereo receiver): the redundant copy then carries its own stereo predictor and
+    // mid-only flags per frame, which have to be read for exactly the frames that have one
+    bool st = r.chance(0.34);
+    p.ops.push_back(mkop("ENCNEW", {K_SINGLE, r.range(0, 1), st ? 2 : 1, r.range(0, 1), 0, 0, r.chance(0.7) ? -1 : r.range(0, 4), (int64_t)r.range(1, 1 << 30)}));
+    p.ops.push_back(mkop("RXNEW", {r.range(0, 4), st ? 1 : r.range(0, 1), r.chance(0.7) ? -1 : r.range(0, 4)}));
     p.ops.push_back(mkop("CTL", {OPUS_SET_DTX_REQUEST, 0}));
     p.ops.push_back(mkop("CTL", {OPUS_SET_INBAND_FEC_REQUEST, 1}));
     p.ops.push_back(mkop("CTL", {11002, 1000}));
-    p.ops.push_back(mkop("CTL", {OPUS_SET_BITRATE_REQUEST, r.pick({32000, 36000, 40000})}));
+    if (st) p.ops.push_back(mkop("CTL", {OPUS_SET_FORCE_CHANNELS_REQUEST, 2}));
+    p.ops.push_back(mkop("CTL", {OPUS_SET_BITRATE_REQUEST, (st ? 2 : 1) * r.pick({32000, 36000, 40000})}));
     p.ops.push_back(mkop("CTL", {OPUS_SET_PACKET_LOSS_PERC_REQUEST, r.pick({20, 30, 50})}));
     p.ops.push_back(mkop("RXPOL", {1, 0, 0}));
     // short speech-like bursts with pauses: the level changes from frame to frame, so a frame reconstructed from real data (LBRR)
